@@ -500,7 +500,14 @@ def c09(sc, tr):
                 res['violations'].append(
                     ('debug-block-differs', 'get_debug',
                      {'file': name, 'got': got[:8], 'want': want[:8]}))
-        if mode == 'lp':
+        if mode == 'lp' and sess.get('big'):
+            res['probes']['big-lane'] = 1
+            for pid in ('C01', 'C05', 'C11'):
+                v = oracles.big_oracle(pid, ctx, sub)
+                for cls, site, d in v['violations']:
+                    res['violations'].append(
+                        ('lp:' + cls, site, dict(d, file=name)))
+        elif mode == 'lp':
             for fn in (oracles.c02, oracles.c01, oracles.c05):
                 v = fn(ctx, sub)
                 for cls, site, d in v['violations']:
